@@ -1285,6 +1285,29 @@ def _nonce(n):
     return bytes(4) + n.to_bytes(8, "little")
 
 
+def watch_inflight(peer, live_now):
+    """sample what the object REPORTS at every request the peer receives, i.e. while the attempt is in flight
+    (M1 sent / M3 sent, the replies outstanding): Model/VerifyConn.g_inflight"""
+    peer.inflight = []
+    orig = peer.respond
+
+    def respond(request, expected=None):
+        try:
+            peer.inflight.append(bool(live_now()))
+        except Exception as e:  # noqa: BLE001
+            peer.inflight.append("error:" + type(e).__name__)
+        return orig(request, expected)
+    peer.respond = respond
+
+
+def inflight_of(peer):
+    """None when the peer was never asked, else: did the object report a session at any of those moments"""
+    fl = getattr(peer, "inflight", None)
+    if not fl:
+        return None
+    return any(x is True or isinstance(x, str) for x in fl)
+
+
 class LiveBase:
     """one live connection / pairing object of the real code + the harness's view of the link"""
     transport = "?"
@@ -1369,6 +1392,9 @@ class LiveCoap(LiveBase):
     async def __aexit__(self, *a):
         self.cc.Context = self.saved
 
+    def live_now(self):
+        return self.conn.is_connected
+
     async def verify(self, peer):
         self.hub["peer"], self.hub["fail"] = peer, None
         try:
@@ -1432,6 +1458,9 @@ class LiveIp(LiveBase):
 
     async def __aexit__(self, *a):
         self.ipc.HomeKitConnection._connect_once = self.orig
+
+    def live_now(self):
+        return self.conn.is_connected
 
     async def verify(self, peer, rule="always-200"):
         self.hub["peer"], self.rule = peer, rule
@@ -1520,6 +1549,9 @@ class LiveBle(LiveBase):
 
     async def __aexit__(self, *a):
         self.bc.char_write = self.orig
+
+    def live_now(self):
+        return self.p._encryption_key
 
     async def verify(self, peer, delivery="single"):
         self.hub["peer"] = peer
@@ -1621,6 +1653,7 @@ async def run_history(tr, kinds, rnd):
     async with live_cls(U) as lv:
         for i, kind in enumerate(kinds):
             entry = dict(event=kind)
+            infl = None
             if kind in ("drop", "reset"):
                 mode = rnd.choice(COAP_DROPS) if (tr == "coap" and kind == "drop") else None
                 r = await (lv.drop(mode) if kind == "drop" else lv.reset())
@@ -1658,6 +1691,7 @@ async def run_history(tr, kinds, rnd):
                         return [(T_STATE, lit(b"\x02")), (T_METHOD, lit(b"\x06")), (T_SID, ns), (T_ENC, tag)]
                     m2ops = [top(forged, "forged-resume")]
                 peer = Peer(Scn("history", tr, 0, acc=accd, m2=m2ops, m4=m4ops), U, 100 + i, live_session=live_s)
+                watch_inflight(peer, lv.live_now)
                 if tr == "ble":
                     dl = rnd.choice(BLE_DELIVERIES)
                     exc = await lv.verify(peer, dl)
@@ -1668,7 +1702,8 @@ async def run_history(tr, kinds, rnd):
                     entry.update(http_rule=rule, http_status_of_replies=list(lv.conn.transport.http_log) if lv.conn.transport else None)
                 else:
                     exc = await lv.verify(peer)
-                entry.update(exception=exc, **_transcript(peer))
+                entry.update(exception=exc, reported_live_while_in_flight=list(peer.inflight), **_transcript(peer))
+                infl = inflight_of(peer)
                 ok = exc is None
                 if ok and peer.acc.secret is not None:
                     sessions[i] = R.session_keys(peer.acc.secret, tr)
@@ -1688,13 +1723,13 @@ async def run_history(tr, kinds, rnd):
                     events.append(f"V:{100 + i}:{peer.sym_m2}:{m4t}")
                 pd = peer
             if kind == "noop":
-                impl.append(impl[-1] if impl else (False, None, None, []))
+                impl.append((impl[-1][:4] if impl else (False, None, None, [])) + (None,))
             elif tr == "ble":
-                impl.append(await lv.probe(sessions, sids))
+                impl.append(tuple(await lv.probe(sessions, sids)) + (infl if kind not in ("drop", "reset") else None,))
             else:
-                impl.append(await lv.probe(sessions))
+                impl.append(tuple(await lv.probe(sessions)) + (infl if kind not in ("drop", "reset") else None,))
             entry["observed"] = dict(live=impl[-1][0], keys_of_session=impl[-1][1], resumable_session=impl[-1][2],
-                                     notes=impl[-1][3])
+                                     notes=impl[-1][3], live_while_in_flight=impl[-1][4])
             script.append(entry)
     p0 = Peer(Scn("history", tr, 0, honest=True), U, 99)
     hx = lambda x: x.hex() if x else "-"  # noqa: E731
@@ -1720,6 +1755,502 @@ def history_pass(tier, rnd):
     finally:
         lg.setLevel(lvl)
     return out
+
+
+# ------------------------------------------------------------------ fifth pass: the connection life cycle through the
+# real ENTRY POINTS (Model/VerifyConn.v): which link the keys were proved on, whether pair-verify runs, every way a link ends
+LINK_CONNECTS = ["honest", "honest", "honest", "forgot", "wrong-ltsk", "m4-error", "rejected"]
+LINK_ENDS = dict(
+    ble=["callback", "close", "close-no-callback", "close-raises-eof", "close-raises-bleak", "close-after-operation"],
+    ip=["lost", "close"],
+    coap=COAP_DROPS + ["reset"])
+
+
+class IpWire2(IpWire):
+    """IpWire with the selector-transport contract for close(): connection_lost is delivered (once, via call_soon) to
+    the protocol attached at that time"""
+
+    def __init__(self, conn, hub, rule):
+        super().__init__(conn, hub, rule)
+        self.proto, self.lost = None, False
+
+    def set_protocol(self, p):
+        self.proto = p
+
+    def _deliver(self):
+        if not self.lost and self.proto is not None:
+            self.lost = True
+            self.proto.connection_lost(None)
+
+    def close(self):
+        if not self.closed:
+            self.closed = True
+            asyncio.get_running_loop().call_soon(self._deliver)
+
+    def peer_reset(self):
+        """the accessory / the network ends the TCP connection"""
+        self.closed = True
+        self._deliver()
+
+
+class LinkIp(LiveIp):
+    """ONE SecureHomeKitConnection driven through ensure_connection() / reconnect_soon() and the REAL _reconnect loop,
+    with an owner whose post-connect set-up can fail"""
+
+    async def __aenter__(self):
+        import logging
+        import aiohomekit.controller.ip.connection as ipc
+        from aiohomekit.exceptions import AccessoryDisconnectedError
+        hub = self.hub
+        hub.update(refuse=False, setup_fail=False)
+        self.rule = "always-200"
+        peer0 = Peer(Scn("link", "ip", 0, honest=True), self.U, 98)
+
+        class Owner:
+            name, description = "c01-link", None
+            calls = []
+
+            async def connection_made(self, secure):
+                self.calls.append(secure)
+                if secure and hub["setup_fail"]:
+                    hub["setup_fail"] = False
+                    raise AccessoryDisconnectedError("post-connect set-up failed (scripted)")
+
+            def event_received(self, event):
+                pass
+
+        async def fake_base_connect(this):
+            if hub["refuse"]:
+                raise ConnectionError("connection refused (scripted)")
+            this.transport = IpWire2(this, hub, self.rule)
+            this.protocol = ipc.InsecureHomeKitProtocol(this)
+            this.transport.set_protocol(this.protocol)
+            this.protocol.connection_made(this.transport)
+            this.connected_host = "127.0.0.1"
+            this.host_header = "Host: 127.0.0.1"
+            if this.owner:
+                await this.owner.connection_made(False)
+        self.ipc, self.orig = ipc, ipc.HomeKitConnection._connect_once
+        ipc.HomeKitConnection._connect_once = fake_base_connect
+        self.lg = logging.getLogger("aiohomekit")
+        self.lvl = self.lg.level
+        self.lg.setLevel(logging.CRITICAL + 1)      # the loop logs every (expected) failed attempt with a traceback
+        self.conn = ipc.SecureHomeKitConnection(Owner(), dict(peer0.pd, AccessoryIP="127.0.0.1", AccessoryPort=1))
+        self.waiters = []
+        return self
+
+    async def __aexit__(self, *a):
+        with contextlib.suppress(Exception):
+            await asyncio.wait_for(self.conn.close(), 5)
+        for w in self.waiters:
+            w.cancel()
+        await asyncio.gather(*self.waiters, return_exceptions=True)
+        self.ipc.HomeKitConnection._connect_once = self.orig
+        self.lg.setLevel(self.lvl)
+
+    def _backing_off(self):
+        f = self.conn._reconnect_future
+        return f is not None and not f.done()
+
+    async def settle(self):
+        for _ in range(5000):
+            c = self.conn._connector
+            if c is None or c.done() or self._backing_off():
+                return
+            await asyncio.sleep(0)
+        raise HarnessError("IP connector neither finished nor backed off")
+
+    async def connect(self, peer, rule="always-200", setup_fail=False):
+        hub, conn = self.hub, self.conn
+        hub.update(peer=peer, refuse=False, setup_fail=setup_fail)
+        self.rule = rule
+        if self._backing_off():
+            conn.reconnect_soon()              # what a zeroconf sighting does: the next attempt starts now
+            await asyncio.sleep(0)
+        else:
+            w = asyncio.ensure_future(conn.ensure_connection())
+            self.waiters.append(w)
+            await asyncio.sleep(0)
+        await self.settle()
+        hub.update(refuse=True, setup_fail=False)      # attempts the loop makes on its own later do not reach a peer
+        if peer.n and conn.is_connected:
+            self.fresh_counters()
+        err = conn.last_connector_error
+        return type(err).__name__ if err is not None else None
+
+    async def end(self, mode):
+        conn = self.conn
+        self.hub["refuse"] = True
+        if mode == "close":
+            await asyncio.wait_for(conn.close(), 5)
+        elif conn.transport is not None:
+            conn.transport.peer_reset()
+        for _ in range(3):
+            await asyncio.sleep(0)
+        await self.settle()
+
+
+class LinkCoap(LiveCoap):
+    """ONE CoAPHomeKitConnection driven through connect() (`if self.is_connected: return`)"""
+
+    async def __aenter__(self):
+        await super().__aenter__()
+
+        async def no_info():        # connect()'s get_accessory_info request is outside C01
+            return None
+        self.conn.get_accessory_info = no_info
+        return self
+
+    async def connect(self, peer):
+        self.hub["peer"], self.hub["fail"] = peer, None
+        try:
+            await self.conn.connect(peer.pd)
+        except Exception as e:  # noqa: BLE001
+            return type(e).__name__
+        if peer.n:
+            self.fresh_counters()
+        return None
+
+    async def end(self, mode):
+        if mode == "reset":
+            return await self.reset()
+        return await self.drop(mode)
+
+
+class LinkBle(LiveBase):
+    """ONE real BlePairing (real constructor) driven through _populate_accessories_and_characteristics (which decides
+    whether pair-verify runs), close() / close_after_operation() and the disconnected callback; every new link is a
+    new client object handed out by establish_connection"""
+    transport = "ble"
+
+    async def __aenter__(self):
+        import aiohomekit.controller.ble.client as bc
+        import aiohomekit.controller.ble.pairing as bp
+        from aiohomekit.characteristic_cache import CharacteristicCacheMemory
+        from aiohomekit.controller.ble.controller import BleController
+        from aiohomekit.model import Accessories, AccessoriesState, Accessory
+        from bleak.exc import BleakError
+        hub, me = self.hub, self
+        self.link = BlePieces(lambda b: hub["peer"].respond(b), "single")
+        self.clients = []
+
+        async def fake_char_write(client, ek, dk, handle, iid, body):
+            if client is not me.p.client or not client.is_connected:
+                raise HarnessError("pair-verify written to a client that is not the current link")
+            return me.link.write(bytes(body))
+
+        class FakeClient:
+            def __init__(self, cb):
+                self.address, self.is_connected, self.cb, self.disconnect_mode = "00:00", True, cb, "ok"
+
+            async def get_characteristic(self, *a, **k):
+                return object()
+
+            async def get_characteristic_iid(self, *a, **k):
+                return 1
+
+            async def disconnect(self):
+                m = self.disconnect_mode
+                if m == "raises-eof":          # dead D-Bus socket: no callback is delivered either
+                    raise EOFError("dbus connection died")
+                if m == "raises-bleak":
+                    raise BleakError("disconnect failed")
+                self.is_connected = False
+                if m != "no-callback":
+                    self.cb(self)
+
+        class FakeDevice:
+            address, name = "AA:BB:CC:DD:EE:FF", "c01-link"
+
+        async def fake_establish(device, name, disconnected_callback, **kw):
+            c = FakeClient(disconnected_callback)
+            me.clients.append(c)
+            return c
+        peer0 = Peer(Scn("link", "ble", 0, honest=True), self.U, 98)
+        pd = dict(peer0.pd, AccessoryAddress="AA:BB:CC:DD:EE:FF", Connection="BLE")
+        p = bp.BlePairing(BleController(CharacteristicCacheMemory()), pd, device=FakeDevice())
+        accs = Accessories()
+        accs.add_accessory(Accessory.create_with_info(1, "c01", "c01", "c01", "0001", "1.0"))
+        p._accessories_state = AccessoriesState(accs, 1, None, 1)      # GATT database already known
+        p.description = None
+        self.p, self.bc, self.bp = p, bc, bp
+        self.saved = (bc.char_write, bp.establish_connection)
+        bc.char_write, bp.establish_connection = fake_char_write, fake_establish
+        return self
+
+    async def __aexit__(self, *a):
+        self.bc.char_write, self.bp.establish_connection = self.saved
+
+    def live_now(self):
+        return self.p.is_connected
+
+    async def connect(self, peer, delivery="single"):
+        self.hub["peer"] = peer
+        self.link.mode, self.link.queue = delivery, []
+        try:
+            await asyncio.wait_for(self.p._populate_accessories_and_characteristics(), 5)
+        except HarnessError:
+            raise
+        except Exception as e:  # noqa: BLE001
+            return type(e).__name__
+        if peer.n:
+            self.fresh_counters()
+        return None
+
+    async def end(self, mode):
+        p = self.p
+        c = p.client
+        if mode == "callback":                 # the accessory / the stack drops the link
+            if c is not None and c.is_connected:
+                c.is_connected = False
+                c.cb(c)
+            return None
+        if c is not None:
+            c.disconnect_mode = {"close": "ok", "close-after-operation": "ok", "close-no-callback": "no-callback",
+                                 "close-raises-eof": "raises-eof", "close-raises-bleak": "raises-bleak"}[mode]
+        try:
+            await asyncio.wait_for(p.close_after_operation() if mode == "close-after-operation" else p.close(), 5)
+        except Exception as e:  # noqa: BLE001
+            return type(e).__name__
+        return None
+
+    async def probe(self, sessions, sids=None):
+        p = self.p
+        live = bool(p.is_connected)
+        r = None
+        if p._session_id is not None:
+            r = "unknown"
+            for j, sid in (sids or {}).items():
+                if bytes(p._session_id) == sid:
+                    r = j
+                    break
+        if not p._encryption_key:
+            return live, None, r, []
+        notes = []
+        j = self.which(bytes(p._encryption_key.encrypt(b"probe")), b"", sessions, self.n_send)
+        self.n_send += 1
+        if j != "unknown":
+            try:
+                okr = bytes(p._decryption_key.decrypt(R.aead_seal(sessions[j]["a2c"], _nonce(self.n_recv), b"", b"pong"))) == b"pong"
+            except Exception:  # noqa: BLE001
+                okr = False
+            if okr:
+                self.n_recv += 1
+            else:
+                notes.append(f"write key is session {j}'s but the read key is not")
+        return live, j, r, notes
+
+
+def gen_link_histories(tier, rnd):
+    n = 14 if tier == "quick" else 200
+    out = []
+    for tr in TRANSPORTS:
+        ends = LINK_ENDS[tr]
+        fixed = [["honest", "honest", e, "honest", "honest"] for e in ends]                  # every way a link ends, then re-use
+        fixed += [["honest", e, "wrong-ltsk", "honest"] for e in ends[:3]]                   # an impostor's link after the end
+        fixed += [["wrong-ltsk", "honest", ends[0], "m4-error", ends[-1], "honest"], ["rejected", ends[0], "honest", "honest"]]
+        if tr == "ip":
+            fixed += [["honest+setup-failed", "wrong-ltsk", "honest"], ["honest", "lost", "honest+setup-failed", "honest"],
+                      ["honest+setup-failed", "honest+setup-failed", "m4-error", "honest", "close", "honest"]]
+        for h in fixed:
+            out.append((tr, h))
+        pool = LINK_CONNECTS + ends + ends + (["honest+setup-failed"] * 2 if tr == "ip" else [])
+        for _ in range(n):
+            out.append((tr, [rnd.choice(pool) for _ in range(rnd.randrange(3, 9))]))
+    return out
+
+
+def py_link_spec(tr, log):
+    """independent statement of what C01 demands of the object over a life-cycle history:
+    log entries ('connect', would_succeed, setup_fails) | ('end', kind).  Per event:
+    (live, session whose keys are installed, resumable session, did pair-verify run, live while in flight)"""
+    live, keys, res, out = False, None, None, []
+    for i, ev in enumerate(log):
+        ran = infl = None
+        if ev[0] == "connect":
+            ran = (keys is None) if tr == "ble" else (not live)      # a session that is up is not verified again
+            if ran:
+                infl = False                                         # nothing is reported before the peer has proved itself
+                if ev[1]:
+                    live, keys = True, i
+                    res = i if tr == "ble" else None
+                    if ev[2]:                                        # the attempt is dropped by the reconnect loop
+                        live, keys = False, None
+                elif tr == "ip":
+                    live, keys = False, None
+        elif tr == "coap" and ev[1] != "reset":
+            live = False                                             # the context stays attached, the session is over
+        else:
+            live, keys = False, None                                 # the link is gone: its keys go with it
+        out.append((live, keys, res, ran, infl))
+    return out
+
+
+async def run_link_history(tr, kinds, rnd):
+    """one life-cycle history on one live object through its entry points; returns (impl, model request, owner map, log, script)"""
+    U = Universe("c01-link")
+    live_cls = dict(coap=LinkCoap, ip=LinkIp, ble=LinkBle)[tr]
+    sessions, sids, impl, log, script = {}, {}, [], [], []
+    tokens, owner, ctok = [], [], []       # model events, harness event owning each, index of the C token per harness event
+    last_ok = None
+    async with live_cls(U) as lv:
+        for i, kind in enumerate(kinds):
+            entry = dict(event=kind)
+            ran = infl = None
+            if kind in LINK_ENDS[tr]:
+                r = await lv.end(kind)
+                skipped = r == "skipped"    # CoAP reconnect_soon on a context without coap_ctx would crash: not this machine
+                entry.update(raised=r)
+                tokens.append("R" if (kind == "reset" and not skipped) else "E")
+                owner.append(i)
+                ctok.append(None)
+                log.append(("end", "already-over" if skipped else kind))
+            else:
+                base, _, sf = kind.partition("+")
+                accd, m4ops, live_s = dict(eph=200 + i), [], None
+                if base == "wrong-ltsk":
+                    accd["ltsk"] = OTHER_LTSK
+                if base == "rejected":
+                    accd["ctrl_ltsk"] = OTHER_LTSK
+                if base == "m4-error":
+                    m4ops = [top(l_add(-1, T_ERROR, b"\x02"), "err2")]
+                if tr == "ble" and base == "honest" and last_ok is not None:
+                    live_s = (last_ok.acc.sid, last_ok.acc.secret_v, bytes([0x40 + i]) * 8)
+                peer = Peer(Scn("link", tr, 0, acc=accd, m4=m4ops), U, 100 + i, live_session=live_s)
+                watch_inflight(peer, lv.live_now)
+                if tr == "ble":
+                    dl = rnd.choice(BLE_DELIVERIES)
+                    exc = await lv.connect(peer, dl)
+                    entry.update(gatt_delivery=dl, links_established=len(lv.clients))
+                elif tr == "ip":
+                    rule = rnd.choice(HTTP_RULES)
+                    exc = await lv.connect(peer, rule, bool(sf))
+                    entry.update(http_rule=rule, owner_setup_fails=bool(sf))
+                else:
+                    exc = await lv.connect(peer)
+                ran, infl = peer.n > 0, inflight_of(peer)
+                entry.update(exception=exc, pair_verify_ran=ran, reported_live_while_in_flight=list(peer.inflight),
+                             **(_transcript(peer) if ran else {}))
+                # would this attempt open a session?  judged from the ACCESSORY's side: it resumed, or it accepted the
+                # controller's proof and its M4 was delivered unaltered (when nothing ran: by the kind of accessory)
+                acc_ok = (peer.acc.secret is not None and not m4ops and
+                          (peer.acc.state == "resumed" or peer.m3acc is True)) if ran else base in ("honest", "forgot")
+                if ran and acc_ok:
+                    sessions[i] = R.session_keys(peer.acc.secret, tr)
+                    sids[i] = peer.acc.sid
+                    last_ok = peer
+                log.append(("connect", bool(acc_ok), bool(sf)))
+                ctok.append(len(tokens))
+                if not ran:
+                    tokens.append("C:0:.:.")
+                elif peer.sym_m2 is None or peer.reused_name is not None:
+                    tokens.append("?")
+                else:
+                    m4t = peer.sym_m4 if (peer.m4 is not None and peer.sym_m4 not in (None, "honest")) else \
+                        (reply_term(peer.m4_items) if peer.m4_items else ".")
+                    tokens.append(f"C:{100 + i}:{peer.sym_m2}:{m4t}")
+                owner.append(i)
+                if sf and ran:
+                    tokens.append("E")      # the reconnect loop drops the attempt whose set-up failed: that link is over
+                    owner.append(i)
+            pr = await (lv.probe(sessions, sids) if tr == "ble" else lv.probe(sessions))
+            impl.append(tuple(pr) + (ran, infl))
+            entry["observed"] = dict(live=pr[0], keys_of_session=pr[1], resumable_session=pr[2], notes=pr[3],
+                                     pair_verify_ran=ran, live_while_in_flight=infl)
+            script.append(entry)
+    p0 = Peer(Scn("link", tr, 0, honest=True), U, 99)
+    hx = lambda x: x.hex() if x else "-"  # noqa: E731
+    req = None
+    if "?" not in tokens:
+        req = " ".join(["conn", tr, hx(p0.acc_id), msg(p0.stored_ltpk), hx(p0.ios_id), str(p0.record["ios_ltsk"])] + tokens)
+    return impl, req, (owner, ctok), log, script
+
+
+def link_pass(tier, rnd):
+    out = []
+
+    async def main():
+        for tr, kinds in gen_link_histories(tier, rnd):
+            out.append((tr, kinds) + await run_link_history(tr, kinds, rnd))
+    import logging
+    lg = logging.getLogger("aiohomekit.controller.coap.connection")
+    lvl = lg.level
+    lg.setLevel(logging.CRITICAL + 1)
+    try:
+        asyncio.run(main())
+    finally:
+        lg.setLevel(lvl)
+    return out
+
+
+def judge_link_histories(hs, answers, cov, viol):
+    """oracle (py_link_spec) first, then the extracted life-cycle machine (Model/VerifyConn.c_trace)"""
+    n_ev = 0
+    for tr_, kinds, impl, req, (owner, ctok), log, script in hs:
+        n_ev += len(kinds)
+        model = next(answers).split(" ") if req else None
+        spec = py_link_spec(tr_, log)
+        cov.case(f"link|{tr_}|{kinds}", True, transport="link-" + tr_, family="link-history",
+                 sample=dict(scenario=f"link:{tr_}", events=kinds, observed=[list(x[:3]) + list(x[4:]) for x in impl], model=model)
+                 if len(kinds) == 5 and kinds[0] == kinds[1] == "honest" else None,
+                 link_len=len(kinds), **{"link_events": "+".join(sorted(set(kinds)))[:70]})
+        for kd in kinds:
+            cov.hist["link_event_kind"][f"{tr_}:{kd}"] += 1
+        payload = dict(scenario=f"link:{tr_}", transport=tr_, events=kinds, script=script, model=model,
+                       how_to_replay="one live object driven through its entry points (BlePairing._populate_accessories_and_"
+                                     "characteristics + close()/close_after_operation()/disconnected callback with a fake client "
+                                     "whose disconnect() behaves as stated; SecureHomeKitConnection.ensure_connection()/"
+                                     "reconnect_soon() over the real _reconnect loop with an owner whose connection_made(True) "
+                                     "raises when owner_setup_fails; CoAPHomeKitConnection.connect()): apply the events in order, "
+                                     "a connect is answered by a fresh accessory of the stated kind with m2/m4; sample "
+                                     "is_connected at every request the accessory receives and after each event, and probe "
+                                     "which session's keys are installed (accessory_keys)")
+        bad = None
+        for k, st_ in enumerate(impl):
+            live, keys, res, notes, ran, infl = st_
+            sl, sk, sr, sran, sinfl = spec[k]
+            if infl:
+                bad = (k, "session-reported-in-flight",
+                       f"during event {k} ({kinds[k]}), with M1/M3 sent and the peer's replies still outstanding, the object "
+                       "already reported an open session (is_connected): the peer of THIS link has proved nothing yet")
+                break
+            if sran is not None and bool(ran) != sran:
+                bad = (k, "pair-verify-skipped" if sran else "pair-verify-repeated",
+                       f"event {k} ({kinds[k]}): the entry point {'did not run' if sran else 'ran'} pair-verify; the object "
+                       f"{'has no session proved on the current link' if sran else 'already has a live session'} "
+                       f"(observed live={live}, keys of session {keys})")
+                break
+            if notes:
+                bad = (k, "mixed-keys", "; ".join(notes))
+                break
+            if (bool(live), keys, res if tr_ == "ble" else None) != (sl, sk, sr):
+                bad = (k, "stale-or-missing-keys",
+                       f"after event {k} ({kinds[k]}) the object is live={live} with the keys of session {keys} (resumable: "
+                       f"{res}); C01 over links gives live={sl}, session {sk} (resumable: {sr}): keys are proved per link and "
+                       "go with it, however the link ended")
+                break
+        if bad:
+            viol.append(violation(f"link:{tr_}:{bad[1]}:{kinds[bad[0]]}", f"life-cycle history {kinds} on one live {tr_} object: {bad[2]}",
+                                  True, **payload))
+        elif model is not None:
+            last_of = {}
+            for pos_, o in enumerate(owner):
+                last_of[o] = pos_
+            f = lambda x: "-" if x in ("-", None) else str(owner[int(x)])  # noqa: E731
+            g = lambda x: "-" if x is None else str(x)  # noqa: E731
+            mw, iw = [], []
+            for k, st_ in enumerate(impl):
+                w = model[last_of[k]].split(",")
+                c = model[ctok[k]].split(",") if ctok[k] is not None else ["-"] * 7
+                mw.append(f"{w[0]},{f(w[1])},{f(w[2])},{c[3]},{c[4]}")
+                live, keys, res, notes, ran, infl = st_
+                iw.append(f"{1 if live else 0},{g(keys)},{g(res) if tr_ == 'ble' else '-'},"
+                          f"{'-' if ran is None else int(bool(ran))},{'-' if infl is None else int(bool(infl))}")
+            if mw != iw:
+                viol.append(violation(f"model-mismatch:link:{tr_}",
+                                      f"life-cycle machine and implementation disagree on {kinds}: impl {iw} model {mw}", False,
+                                      **payload))
+    return n_ev
 
 
 SEQUENCE_MODES = dict(
@@ -2151,6 +2682,13 @@ def run(ctx):
                      **{"hist_event": "+".join(sorted(set(kinds)))[:60]})
             bad = None
             for k, st_ in enumerate(impl):
+                # a session must never be reported while the attempt is still in flight; BLE run directly through
+                # _async_pair_verify on a live session legitimately keeps reporting the (same link's) old session
+                if st_[4] and not (tr_ == "ble" and k and spec[k - 1][0]):
+                    bad = (k, "session-reported-in-flight",
+                           f"during event {k} ({kinds[k]}), with M1/M3 sent and the peer's replies still outstanding, the "
+                           "object already reported an open session (is_connected): the peer of this attempt has proved nothing")
+                    break
                 if st_[3]:
                     bad = (k, "mixed-keys", "; ".join(st_[3]))
                     break
@@ -2175,13 +2713,22 @@ def run(ctx):
                     st_ = impl[k]
                     pos = {kk: n for n, kk in enumerate(real)}
                     f = lambda x: "-" if x is None else str(pos.get(x, x))  # noqa: E731
-                    iw.append(f"{1 if st_[0] else 0},{f(st_[1])},{f(st_[2]) if tr_ == 'ble' else '-'}")
+                    iw.append(f"{1 if st_[0] else 0},{f(st_[1])},{f(st_[2]) if tr_ == 'ble' else '-'},"
+                              + ("-" if st_[4] is None else str(int(bool(st_[4])))))
                 if mw != iw:
                     viol.append(violation(f"model-mismatch:history:{tr_}",
                                           f"history machine and implementation disagree on {kinds}: impl {iw} model {mw}", False,
                                           **payload))
     cov.extra["histories"] = n_hist
     cov.extra["history_events"] = n_hist_events
+    # ---- fifth pass: connection life cycle through the real entry points vs Model/VerifyConn.v
+    n_link = n_link_events = 0
+    if not ctx.get("replay"):
+        ls = link_pass(tier, rng(ctx["seed"], "c01-link"))
+        n_link = len(ls)
+        n_link_events = judge_link_histories(ls, iter(drv.batch([h[3] for h in ls if h[3]])), cov, viol)
+    cov.extra["link_histories"] = n_link
+    cov.extra["link_history_events"] = n_link_events
     # ---- second pass: the real transport coroutines
     sel = [(s, r) for s, r in zip(scns, recs)
            if s.family in GLUE_FAMILIES or (tier == "thorough" and not s.family.startswith("m2:raw"))]
